@@ -582,12 +582,14 @@ class HedTag:
         value, _, units = extension_text.rpartition(" ")
         if not units:
             return None, None, None
+        # A unit name may contain blanks (degree Celsius): the number is the first word, the unit is the rest.
+        number, _, unit_text = extension_text.partition(" ")
 
         for unit_class_entry in tag_unit_classes.values():
-            possible_match = unit_class_entry.get_derivative_unit_entry(units)
+            possible_match = unit_class_entry.get_derivative_unit_entry(unit_text)
             # The value is a single word: extra words between it and the unit belong to neither.
-            if possible_match and not possible_match.has_attribute(HedKey.UnitPrefix) and " " not in value:
-                return value, units, possible_match
+            if possible_match and not possible_match.has_attribute(HedKey.UnitPrefix) and " " not in number:
+                return number, unit_text, possible_match
 
             # Repeat the above, but as a prefix
             possible_match = unit_class_entry.get_derivative_unit_entry(value)
